@@ -11,6 +11,7 @@ V=/verif; base=/var/tmp/pw
 all="C01 C02 C03 C04 C05 C06 C07 C08 C09 C10 C11 C12 C13 C14 C15 C16 C17 C18 C19 C20"
 mk() { k=$1; d=$base$k; rm -rf $d; mkdir -p $d
   git -C /repo worktree add --detach $d/repo HEAD >/dev/null 2>&1
+  cp /repo/Cargo.lock $d/repo/Cargo.lock 2>/dev/null     # untracked in /repo, needed for offline builds
   rsync -a --exclude .git --exclude replays --exclude work $V/ $d/verif/
   sed -i "s|/repo/source|$d/repo/source|g" $d/verif/harness/Cargo.toml $d/verif/harness_alloc/Cargo.toml
   ( cd $d/verif && VERIF_REPO=$d/repo ./check C13 --tier quick >/dev/null 2>&1 ) ; }
@@ -21,10 +22,10 @@ worker() { k=$1; d=$base$k
     if ! git -C $d/repo apply $V/$patch/patch.diff 2>/dev/null; then echo "$patch PATCH-DOES-NOT-APPLY"; continue; fi
     for p in $props; do
       out=$(cd $d/verif && VERIF_REPO=$d/repo ./check $p --tier quick 2>&1); rc=$?
-      line=$(echo "$out" | grep -E "^(VIOLATION|OK)" | tail -1 | sed "s|$d||g" | cut -c1-120)
+      line=$(echo "$out" | grep -E "^(VIOLATION|OK|Traceback|harness build|.*Error)" | tail -1 | sed "s|$d||g" | cut -c1-120)
       case $patch in
-        seeded/*) if [ $rc -ne 0 ]; then echo "$patch $p DETECTED $line"; else echo "$patch $p MISSED $line"; fi;;
-        *) if [ $rc -eq 0 ]; then echo "$patch $p QUIET"; else echo "$patch $p FALSE-ALARM $line"; fi;;
+        seeded/*) case "$line" in VIOLATION*) echo "$patch $p DETECTED $line";; OK*) echo "$patch $p MISSED $line";; *) echo "$patch $p BROKEN-RUN rc=$rc $line";; esac;;
+        *) case "$line" in OK*) echo "$patch $p QUIET";; VIOLATION*) echo "$patch $p FALSE-ALARM $line";; *) echo "$patch $p BROKEN-RUN rc=$rc $line";; esac;;
       esac
     done
   done
